@@ -116,6 +116,7 @@ type FnExec struct {
 	onReturn func(fx *FnExec, ret *ssa.Return, vals []Val)
 	onStore  func(fx *FnExec, instr ssa.Instruction, pl *Place, v Val)
 	ghostTouch func(call ssa.CallInstruction) bool // does this call update a ghost? (nil = every call may)
+	rely       map[string]func(before, after string) string
 }
 
 type deferredCall struct {
@@ -415,10 +416,15 @@ func (fx *FnExec) havocHeap(name string) {
 	if !ok {
 		return
 	}
-	fx.heapArr(name, sort)
+	before := fx.heapArr(name, sort)
 	n := fx.freshName(name + "_h")
 	fx.emit("(declare-const %s %s)", n, sort)
 	fx.cur.heap[name] = n
+	// rely conditions: what every function of the package guarantees about this heap (each
+	// guarantee is itself an obligation of the family that installs it)
+	if r, ok := fx.rely[name]; ok {
+		fx.assumeGlobal(r(before, n))
+	}
 }
 
 func fieldHeapName(sname string, st *types.Struct, i int) string {
